@@ -1,14 +1,52 @@
 /-
-  HotXL.Model.Fn.Fin — builtin functions of this family (filled in as the family is modelled).
-  `table` maps a registered function name to its model; a registered name with no entry
-  here is reported by the evaluator as `Value.other "unmodelled-builtin"`.
+  HotXL.Model.Fn.Fin — model of hotxlfp/formulas/financial.py: PV, written generically over
+  the operations of `HotXL.Fn.Math.ElemOps` (see `Model/Fn/Math.lean`).  Nothing here is an
+  exact rational function (the power `(1 + rate) ** periods`), so the `table` used by `eval`
+  is empty and PV is reached through the driver op `math PV value…`.
 -/
 import HotXL.Model.Fn.Common
+import HotXL.Model.Fn.Math
 
 namespace HotXL.Fn.Fin
-open HotXL
+open HotXL HotXL.Ops HotXL.Fn HotXL.Fn.Math
 
-open HotXL.Fn
+section generic
+variable {α : Type} (O : ElemOps α)
+
+/-- the body of `PV` on numbers:
+    `-payment * periods - future` at `rate == 0`, else with `R = (1 + rate) ** periods`
+    `(((1 - R) / rate) * payment * (1 + rate * type) - future) / R` -/
+def pv (rate periods payment future type : α) : Option α :=
+  if O.isZero rate then
+    some (O.sub (O.mul (O.neg payment) periods) future)
+  else do
+    let one := O.ofRat 1
+    let R ← O.pow (O.add one rate) periods
+    let a ← O.div (O.sub one R) rate
+    let b := O.mul (O.mul a payment) (O.add one (O.mul rate type))
+    O.div (O.sub b future) R
+
+/-- `PV(rate, periods, payment, future=None, type=None)`: `None` ↦ 0 for the two optional
+    arguments, all five through `parse_number`, `#VALUE!` if any is an error -/
+def PV : List Value → Except Err α
+  | [r, n, p] => go r n p .blank .blank
+  | [r, n, p, f] => go r n p f .blank
+  | [r, n, p, f, t] => go r n p f t
+  | _ => .error .error
+where
+  dflt (v : Value) : Value := match v with | .blank => .num (.int 0) | v => v
+  go (r n p f t : Value) : Except Err α :=
+    match parseNumber r, parseNumber n, parseNumber p, parseNumber (dflt f), parseNumber (dflt t) with
+    | .ok r, .ok n, .ok p, .ok f, .ok t =>
+      match ofNum O r, ofNum O n, ofNum O p, ofNum O f, ofNum O t with
+      | some r, some n, some p, some f, some t => lift (pv O r n p f t)
+      | _, _, _, _, _ => .error .error
+    | _, _, _, _, _ => .error .value
+
+/-- registered name ↦ generic model -/
+def fnTable : List (String × (List Value → Except Err α)) := [("PV", PV O)]
+
+end generic
 
 def table : List (String × Builtin) := []
 
